@@ -25,7 +25,8 @@
 (*       maxfun |-> budget (0 none), runs |-> number of run() calls,             *)
 (*       nA |-> abort callbacks set before the first run, nR |-> results         *)
 (*       callbacks set before the first run, lateR |-> results callbacks set     *)
-(*       between the first and the second run, redir |-> optimizer.stdout set]   *)
+(*       between the first and the second run, redir |-> optimizer.stdout set,   *)
+(*       tolnone |-> constraint_tolerance=None (no feasibility filtering)]       *)
 (* log: what the user can observe (callback calls, evaluator calls, the values   *)
 (* read from the object after each run) - the binding to the implementation.     *)
 EXTENDS Naturals, Sequences, FiniteSets
@@ -112,11 +113,12 @@ Evaluate ==
   /\ s' = [s EXCEPT !.phase = "track"]
   /\ UNCHANGED cfg
 
-\* the tracker keeps the first feasible function result with the lowest objective
+\* the tracker keeps the first feasible function result with the lowest objective (every result is feasible when the
+\* constraint tolerance is None)
 Track ==
   /\ s.phase = "track"
   /\ s' = [s EXCEPT !.phase = "deliver", !.di = 0,
-                    !.best = IF HasF(Item) /\ ~Item.fail /\ Item.feas /\ (s.best = None \/ Item.obj < s.best) THEN Item.obj ELSE @]
+                    !.best = IF HasF(Item) /\ ~Item.fail /\ (Item.feas \/ cfg.tolnone) /\ (s.best = None \/ Item.obj < s.best) THEN Item.obj ELSE @]
   /\ UNCHANGED <<cfg, log>>
 
 CallResCb ==
@@ -183,7 +185,7 @@ AbortConsulted ==
 \* what a finished run reports: the first feasible lowest objective among the function results delivered in that run
 Delivered(r) == {Nth(r, i) : i \in EvalsOf(r)}
 BestOf(r) ==
-  LET ok == {k \in Delivered(r) : HasF(EffAt(k)) /\ ~cfg.script[k].fail /\ cfg.script[k].feas}
+  LET ok == {k \in Delivered(r) : HasF(EffAt(k)) /\ ~cfg.script[k].fail /\ (cfg.script[k].feas \/ cfg.tolnone)}
   IN IF ok = {} THEN None ELSE CHOOSE v \in {cfg.script[k].obj : k \in ok} : \A k \in ok : v <= cfg.script[k].obj
 ReportsTrackedBest ==
   \A d \in Idx("Done") : log[d].obj = BestOf(log[d].n)
